@@ -67,6 +67,8 @@ def _build(kind: str, cn: str = "localhost", label: str | None = None):
     label = label or kind  # twins: same names and serial number, different keys
     name = x509.Name([x509.NameAttribute(NameOID.COMMON_NAME, cn + "-" + label)])
     now = datetime.datetime(2026, 1, 1, tzinfo=datetime.timezone.utc)
+    if "expired" in kind:
+        now = datetime.datetime(2010, 1, 1, tzinfo=datetime.timezone.utc)  # valid 2010 .. 2019
     b = (
         x509.CertificateBuilder()
         .subject_name(name)
